@@ -70,6 +70,7 @@ type kase struct {
 	Wid       string         `json:"wid,omitempty"`
 	Ignore    bool           `json:"ignore"`
 	Rollback  []string       `json:"rollback"`
+	SmallPool bool           `json:"small_pool,omitempty"` // Calcium with a pool of 2 workers (pool.Invoke fails when saturated)
 	Fail      int            `json:"fail"` // >= 0: the (Fail+1)-th Lock call of the case fails (injected)
 	Impl      map[string]any `json:"impl"`
 }
@@ -220,6 +221,8 @@ func (r *recorder) episodes() [][][2]string {
 type env struct {
 	t     *testing.T
 	cal   *calcium.Calcium
+	big   *calcium.Calcium
+	small *calcium.Calcium // same store, pool of 2
 	etcd  *etcdv3.Mercury
 	redis *redisstore.Rediaron
 	mini  *miniredis.Miniredis
@@ -243,8 +246,14 @@ func newEnv(t *testing.T) *env {
 	if err != nil {
 		t.Fatal(err)
 	}
-	e := &env{t: t, cal: cal, rec: &recorder{}}
+	e := &env{t: t, cal: cal, big: cal, rec: &recorder{}}
 	e.etcd = cal.GetStore().(*etcdv3.Mercury)
+	scfg := cfg
+	scfg.MaxConcurrency = 2
+	scfg.WALFile = filepath.Join(dir, "wal2")
+	if e.small, err = calcium.New(ctx, scfg, t); err != nil {
+		t.Fatal(err)
+	}
 	e.mini, err = miniredis.Run()
 	if err != nil {
 		t.Fatal(err)
@@ -265,7 +274,8 @@ func (e *env) use(backend string) store.Store {
 	if backend == "redis" {
 		s = e.redis
 	}
-	e.cal.VerifLockSetStore(&recStore{Store: s, rec: e.rec})
+	e.big.VerifLockSetStore(&recStore{Store: s, rec: e.rec})
+	e.small.VerifLockSetStore(&recStore{Store: s, rec: e.rec}) // the store keeps its own (large) pool
 	return s
 }
 
@@ -392,7 +402,10 @@ func (e *env) run(k *kase) {
 }
 
 func (e *env) drive(ctx context.Context, k *kase) {
-	c := e.cal
+	c := e.big
+	if k.SmallPool {
+		c = e.small
+	}
 	nop := func(context.Context, map[string]*types.Node) error { return nil }
 	deploy := &types.DeployOptions{Name: "app", Podname: "p", Image: "img", Count: 1, DeployStrategy: "AUTO",
 		Entrypoint: &types.Entrypoint{Name: "e"}, NodeFilter: k.NF.real()}
@@ -425,6 +438,13 @@ func (e *env) drive(ctx context.Context, k *kase) {
 			for range ch {
 			}
 		}
+	case "replace":
+		ropts := &types.ReplaceOptions{DeployOptions: types.DeployOptions{Name: "app", Image: "img", Count: 1, IgnorePull: true,
+			Entrypoint: &types.Entrypoint{Name: "e"}, DeployStrategy: "AUTO"}, IDs: append([]string{}, k.IDs...)}
+		if ch, err := c.ReplaceWorkload(ctx, ropts); err == nil {
+			for range ch {
+			}
+		}
 	case "realloc":
 		_ = c.ReallocResource(ctx, &types.ReallocOptions{ID: k.Wid})
 	case "each":
@@ -432,6 +452,13 @@ func (e *env) drive(ctx context.Context, k *kase) {
 		case "RawEngine":
 			for _, id := range k.IDs {
 				_, _ = c.RawEngine(ctx, &types.RawEngineOptions{ID: id, Op: "noop", IgnoreLock: k.Ignore})
+			}
+		case "ReplaceWorkload-unused":
+			ropts := &types.ReplaceOptions{DeployOptions: types.DeployOptions{Name: "app", Image: "img", Count: 1, IgnorePull: true,
+				Entrypoint: &types.Entrypoint{Name: "e"}, DeployStrategy: "AUTO"}, IDs: append([]string{}, k.IDs...)}
+			if ch, err := c.ReplaceWorkload(ctx, ropts); err == nil {
+				for range ch {
+				}
 			}
 		case "Send":
 			if ch, err := c.Send(ctx, &types.SendOptions{IDs: append([]string{}, k.IDs...), Files: []types.LinuxFile{{Filename: "/f", Content: []byte("x"), Mode: 0644}}}); err == nil {
@@ -470,6 +497,9 @@ func genWorld(r *hx.Rng, k *kase) {
 		}
 		if r.Chance(30) {
 			n.Labels["ssd"] = "1"
+		}
+		if r.Chance(25) {
+			n.Labels["gpu"] = "" // a label that is present with an empty value
 		}
 		n.Test = n.Up && r.Chance(50)
 		k.Nodes = append(k.Nodes, n)
@@ -519,6 +549,9 @@ func genFilter(r *hx.Rng, k *kase) nfilter {
 	if r.Chance(15) {
 		f.Labels["ssd"] = "1"
 	}
+	if r.Chance(20) {
+		f.Labels["gpu"] = "" // must select only nodes that carry the key
+	}
 	f.All = r.Chance(35)
 	return f
 }
@@ -543,7 +576,7 @@ func genLocks(r *hx.Rng, k *kase) {
 	k.Op, k.Backend, k.Fail = "locks", "etcd", -1
 	k.IDs, k.Rollback = []string{}, []string{}
 	k.NF = nfilter{Inc: []string{}, Exc: []string{}, Labels: map[string]string{}}
-	kinds := []string{"create", "capacity", "removepod", "node", "node", "remove", "remove", "realloc", "each", "each", "remap", "nodespod", "nodespod", "nodesop", "workloads", "workloads"}
+	kinds := []string{"replace", "replace", "create", "capacity", "removepod", "node", "node", "remove", "remove", "realloc", "each", "each", "remap", "nodespod", "nodespod", "nodesop", "workloads", "workloads"}
 	k.Kind = kinds[r.Intn(len(kinds))]
 	anyNode := k.Nodes[r.Intn(len(k.Nodes))].N
 	if r.Chance(6) {
@@ -560,8 +593,24 @@ func genLocks(r *hx.Rng, k *kase) {
 	case "remove":
 		k.IDs = genIDs(r, k)
 		k.Via = hx.Pick(r, "RemoveWorkload", "DissociateWorkload")
+		if k.Via == "RemoveWorkload" && len(k.Workloads) > 0 && r.Chance(35) {
+			// saturated pool: outer goroutine + one node goroutine fill it, the remap cannot be submitted.
+			// (ids of one node only: with a second node the code's own wg.Wait would never return)
+			k.SmallPool = true
+			node := k.Workloads[r.Intn(len(k.Workloads))].Node
+			k.IDs = []string{}
+			for _, w := range k.Workloads {
+				if w.Node == node {
+					k.IDs = append(k.IDs, w.ID)
+				}
+			}
+			hx.Shuffle(r, k.IDs)
+		}
 	case "realloc":
 		k.Wid = genIDs(r, k)[0]
+	case "replace":
+		k.IDs = genIDs(r, k)
+		k.Via = "ReplaceWorkload"
 	case "each":
 		k.IDs = genIDs(r, k)
 		k.Via = hx.Pick(r, "ControlWorkload", "Send", "RawEngine")
